@@ -60,4 +60,29 @@ def Group.checkOpt (g : Group) (k : Option Ns) (emptyDefault : Bool) : Bool :=
   | some k => g.check k
   | none => emptyDefault
 
+/-! ## how a user's group is stored and changed (src/user/mod.rs `UserManager::{add_user, update_user}`) -/
+
+/-- `PrivilegeGroupOptionParam` as the console sends it: every field may be absent -/
+structure Param where
+  whitelistIsAll : Option Bool := none
+  whitelist : Option (List Ns) := none
+  blacklistIsAll : Option Bool := none
+  blacklist : Option (List Ns) := none
+  deriving DecidableEq, Repr
+
+/-- `add_user`: starts from `PrivilegeGroup::all()` (enabled, whitelist-is-all), takes both lists from the parameter (an
+absent list is stored empty) and the flags that are given -/
+def addUser : Option Param → Stored
+  | none => ⟨true, true, false, [], []⟩
+  | some p => ⟨true, p.whitelistIsAll.getD true, p.blacklistIsAll.getD false, p.whitelist.getD [], p.blacklist.getD []⟩
+
+/-- `update_user`: without a parameter nothing changes; with one, the stored group is rebuilt
+(`build_namespace_privilege`), enabled, and every field that is given replaces the stored one - also an empty list -/
+def updateUser (s : Stored) : Option Param → Stored
+  | none => s
+  | some p =>
+    let g := build s
+    ⟨true, p.whitelistIsAll.getD g.whitelistIsAll, p.blacklistIsAll.getD g.blacklistIsAll,
+      ((p.whitelist.orElse fun _ => g.whitelist).getD []), ((p.blacklist.orElse fun _ => g.blacklist).getD [])⟩
+
 end RNacos.Privilege
